@@ -71,6 +71,13 @@ theorem C14_gen_idioms :
     Gen.Health.folderScanCountdownDefault = 0 ∧ Gen.Health.folderRestoreCountdownDefault = 0 ∧
     Gen.Health.nodeScanCountdownDefault = 0 := by decide
 
+/-- the reveal-to-red scan of a node as the model follows it (`Node.redPhase`, `Op.redScan`): guard `> 0`, decrement, `== 0`
+completes; loaded with `node_scan_duration` (no `max(…, 1)`) unconditionally; starts at 0 -/
+theorem C14_gen_red_scan :
+    Gen.Health.redScanIdiom = (">", "dec-then-test", "==") ∧
+    Gen.Health.redScanLoad = ("none", "self.config.node_scan_duration") ∧
+    Gen.Health.redScanCountdownDefault = 0 := by decide
+
 /-- order inside a timestep: folder = scan, (reveal), restore; node (ON) = node scan with its fan-out, (red scan),
 then processes, services, applications, file system -/
 theorem C14_gen_tick_order :
